@@ -89,6 +89,17 @@ Theorem C13_rename_preserves_tail : forall cs pol x p ps,
           /\ split_sep (skipn 2 p) = head_segment cs (x_crate e) :: tail).
 Proof. exact (rename_preserves_tail tp). Qed.
 
+(* "declared type parameters are converted and applied in order": per
+   occurrence - the substituted type carries exactly this occurrence's
+   converted parameters, and neither the decision nor the path depends on them
+   (two occurrences sharing crate, path and requirement but not parameters get
+   the same path, each with its own parameters) *)
+Theorem C13_parameters_applied_in_order : forall cs pol e rq p ps,
+  decide tp cs pol (ExtOk e (Some rq)) = Use p ps ->
+  x_params e = map Some ps
+  /\ forall ps' : list T, decide tp cs pol (ExtOk (X (x_crate e) (x_path e) (map Some ps')) (Some rq)) = Use p ps'.
+Proof. exact (parameters_applied_in_order tp). Qed.
+
 (* "the schema's own structure is not generated": the structural conversion is
    reached exactly when the decision is Generate *)
 Theorem C13_use_skips_structure : forall cs pol n x,
@@ -200,6 +211,18 @@ Example ex_split_sep :
   split_sep (ustring_of_string "util::util_types::Gizmo")
   = map ustring_of_string ["util"; "util_types"; "Gizmo"].
 Proof. vm_compute. reflexivity. Qed.
+
+(* two occurrences in one space sharing the path, with different parameters *)
+Example ex_two_occurrences :
+  let cs := mk_crates [("std", CVVersion (V 1 0 0 []), None)] in
+  let occ ps := ExtOk (mk_ext "std" "std::collections::VecDeque" ps) (Some [C Caret 1 (Some 0) (Some 0) []]) in
+  show_decision (decide (fun _ => true) cs PGenerate (occ [Some "::std::string::String"]))
+    = "use ::std::collections::VecDeque<::std::string::String>"
+  /\ show_decision (decide (fun _ => true) cs PGenerate (occ [Some "bool"]))
+    = "use ::std::collections::VecDeque<bool>"
+  /\ show_decision (decide (fun _ => true) cs PGenerate (occ [Some "bool"; Some "i64"]))
+    = "use ::std::collections::VecDeque<bool,i64>".
+Proof. vm_compute. repeat split. Qed.
 
 Example ex_not_type_path :
   decide (fun _ => false) [] PAllow (ExtOk (mk_ext "util" "util::" []) (Some ex_req)) = Generate.
